@@ -25,6 +25,7 @@ const RL_ACTIVE: Shape = L21S.with_commit(1).with_applied(1).with_persisted(2).w
 const RS1_LEADER: Shape = Shape::follower3(2, 1).with_role(StateRole::Leader).with_conf(&[1], &[], &[], &[], false).with_terms(&[1, 2, 5]).with_term(5).with_commit(2).with_applied(2).with_persisted(2).with_flags(false, false, false);
 const RS1L: Shape = Shape::follower3(3, 0).with_conf(&[1], &[], &[2], &[], false).with_terms(&[1, 2, 3]).with_term(5).with_commit(3).with_applied(3).with_persisted(3).with_flags(false, false, false);
 const RS1: Shape = Shape::follower3(3, 0).with_conf(&[1], &[], &[], &[], false).with_terms(&[1, 2, 3]).with_term(5).with_commit(3).with_applied(3).with_persisted(3).with_flags(false, false, false);
+const FS_AUTOJOINT: Shape = Shape::follower3(3, 0).with_conf(&[1, 2], &[1, 2, 3], &[], &[], true).with_terms(&[1, 2, 3]).with_term(5).with_commit(2).with_applied(1).with_persisted(3).with_flags(false, false, false);
 const FS: Shape = Shape::follower3(3, 0).with_terms(&[1, 2, 3]).with_term(5).with_commit(2).with_applied(1).with_persisted(3).with_flags(false, false, false);
 // leader over a compacted log (snapshot point 2, entries 3..=5 = 2 stable + 1 unstable), peer 2 needs entries that are gone
 const LC: Shape = Shape::follower3(2, 1).with_role(StateRole::Leader).with_base(2).with_terms(&[1, 2, 2, 2]).with_term(2).with_flags(false, false, false).with_commit(1).with_persisted(2);
@@ -64,6 +65,8 @@ const L21_SNAP_DONE: Shape = L21S.with_commit(1).with_persisted(2).with_peers(&[
 // check-quorum: peers inactive / one active
 const L21_CQ_LOST: Shape = L21S.with_flags(true, false, false).with_commit(1).with_persisted(2).with_peers(&[PeerShape::probe(2, 2).matched(1).inactive(), PeerShape::probe(3, 2).matched(0).inactive()]);
 const L21_CQ_OK: Shape = L21S.with_flags(true, false, false).with_commit(1).with_persisted(2).with_peers(&[PeerShape::probe(2, 2).matched(1), PeerShape::probe(3, 2).matched(0).inactive()]);
+const L21_CQ_LOST2: Shape = L21S.with_flags(true, false, false).with_commit(1).with_persisted(2).with_peers(&[PeerShape::snapshot(2, 2).matched(1).pending_snapshot(2).inactive(), PeerShape::replicate(3, 4, 1).matched(2).inactive()]);
+const L21_BATCH: Shape = L21S.with_commit(0).with_persisted(2).with_peers(&[PeerShape::probe(2, 4).matched(0).paused(), PeerShape::probe(3, 2).matched(0).paused()]);
 const L21_LEARNER: Shape = L21S.with_conf(&[1, 2, 3], &[], &[4], &[], false).with_commit(1).with_persisted(2).with_peers(&[PeerShape::replicate(2, 4, 0).matched(3), PeerShape::probe(3, 2).matched(0).paused(), PeerShape::probe(4, 2).matched(0).paused()]);
 const L21_BOTH: Shape = L21S.with_commit(1).with_persisted(2).with_peers(&[PeerShape::probe(2, 3).matched(1), PeerShape::probe(3, 3).matched(2).paused()]);
 const L21_PROP: Shape = L21S.with_commit(1).with_persisted(2).with_applied(1).with_peers(&[PeerShape::probe(2, 2).matched(1).paused(), PeerShape::probe(3, 2).matched(0).paused()]);
@@ -179,7 +182,7 @@ harnesses! {
     { vote_leader_real_eq_c2m, "C03,C02,C16,C01,C06", thorough, unwind = 8,
       "one Raft::step(MsgRequestVote) on a Leader (term 5) of a 3-voter group, message term 5, 3-entry log (terms [1,2,3], entry 3 a ConfChangeV2 for (pre)candidates; [1,2,5] for leaders), commit = 1, m.commit = 2 with m.commit_term = local term there (fast-forward); symbolic vote/leader/timers/flags/priority, m.index/log_term/context, sender a voter or unknown id",
       |s| c03::vote_step_x(s, &F21C1.with_role(StateRole::Leader).with_term(5), false, Some(2), Some(5), true) }
-    { vote_leader_real_hi_c3m, "C03,C02,C16,C01,C06", quick, unwind = 8,
+    { vote_leader_real_hi_c3m, "C03,C02,C16,C01,C06,C04,C10", quick, unwind = 8,
       "one Raft::step(MsgRequestVote) on a Leader (term 5) of a 3-voter group, message term 7, 3-entry log (terms [1,2,3], entry 3 a ConfChangeV2 for (pre)candidates; [1,2,5] for leaders), commit = 1, m.commit = 3 with m.commit_term = local term there (fast-forward); symbolic vote/leader/timers/flags/priority, m.index/log_term/context, sender a voter or unknown id",
       |s| c03::vote_step_x(s, &F21C1.with_role(StateRole::Leader).with_term(5), false, Some(3), Some(7), true) }
     { vote_leader_real_hi_c3z, "C03,C02,C16,C01,C06", thorough, unwind = 8,
@@ -339,7 +342,7 @@ harnesses! {
     { leader_beat, "C13,C10,C05", quick, unwind = 8,
       "leader: MsgBeat -> one heartbeat per peer, commit advertised <= min(matched, commit)",
       |s| c04::local_step(s, &L21_HB_PROBE, 1, 2) }
-    { leader_checkquorum_lost, "C16,C10", quick, unwind = 8,
+    { leader_checkquorum_lost, "C16,C10,C04", quick, unwind = 8,
       "leader with check_quorum: no peer recently active -> steps down to follower at the same term",
       |s| c04::local_step(s, &L21_CQ_LOST, 2, 2) }
     { leader_checkquorum_ok, "C16,C10", quick, unwind = 8,
@@ -485,6 +488,12 @@ harnesses! {
     { snap_install_joint, "C15,C12,C09", quick, unwind = 8,
       "follower: snapshot carrying a joint configuration {1,2}&&{1,2,3} with learner 4 and staged learner 3 -> configuration reproduced exactly, node stays promotable",
       |s| c15::snapshot_step(s, &FS, 5, 4, &[1, 2], &[1, 2, 3], &[4], &[3], false, false) }
+    { snap_install_outgoing_only, "C15,C09,C10", quick, unwind = 8,
+      "follower: snapshot whose joint configuration lists this node only in the outgoing half -> installed, still promotable",
+      |s| c15::snapshot_step(s, &FS, 5, 4, &[2, 3], &[1, 2, 3], &[], &[], false, false) }
+    { snap_install_over_autoleave_joint, "C15,C12", quick, unwind = 8,
+      "follower that is itself in an auto-leave joint configuration receives a snapshot carrying the final simple configuration: installed, configuration replaced completely (auto-leave flag and staged learners included)",
+      |s| c15::snapshot_step(s, &FS_AUTOJOINT, 5, 4, &[1, 2, 3], &[], &[], &[], false, false) }
     { snap_install_as_learner, "C15,C09", thorough, unwind = 8,
       "follower: snapshot listing this node as learner only -> installed, no longer promotable",
       |s| c15::snapshot_step(s, &FS, 5, 4, &[2, 3], &[], &[1], &[], false, false) }
@@ -519,6 +528,9 @@ harnesses! {
     { read_learner_ack, "C08", quick, unwind = 8,
       "leader of 3 + learner 4: an acknowledgement from the learner does not count",
       |s| c08::leader_read(s, &LL_READ, 0, &[(4, 7)], false) }
+    { read_dup_ctx, "C08,C20", quick, unwind = 8,
+      "leader of 3: forwarded reads with contexts A, B, A (duplicate while pending), one quorum round on B serves both, then a fresh read is served: queue and pending map stay consistent",
+      |s| c08::read_dups(s, &L21_READ) }
     { read_forwarded, "C08", quick, unwind = 8,
       "leader of 3: request forwarded by follower 3, ack from 2 -> MsgReadIndexResp to 3 only, nothing in the leader's own read states",
       |s| c08::leader_read(s, &L21_READ, 3, &[(2, 7)], true) }
@@ -552,6 +564,12 @@ harnesses! {
     { timeoutnow_learner, "C17,C09", quick, unwind = 8,
       "a learner (not a voter of its own configuration) ignores MsgTimeoutNow and election timeouts",
       |s| c09::hup_step(s, &F30.with_applied(3).with_commit(3).with_conf(&[2, 3], &[], &[1], &[], false), 1) }
+    { leader_tick_cq_lost_states, "C10,C04,C16", quick, unwind = 8,
+      "leader with check_quorum whose peers are in Snapshot and Replicate state and inactive: the tick that reaches election_timeout makes it step down, and every progress is reset (acknowledgements forgotten, back to Probe, windows emptied)",
+      |s| c04::leader_tick(s, &L21_CQ_LOST2, 9, 0, false) }
+    { appresp_batch_overlap, "C05,C13", quick, unwind = 8,
+      "leader with batch_append: an append 1..=3 is queued for peer 2 when a delayed ack of index 1 rewinds next_idx to 2: the overlapping entries must not be glued onto the queued message",
+      |s| c04::appresp_batch_step(s, &L21_BATCH, 2) }
     // ---------------- C09 campaign gating ----------------
     { hup_f30_pending, "C09,C03,C16", quick, unwind = 8,
       "Raft::step(MsgHup) on a follower (3 voters, log of 3, applied=1, commit=3, entry 3 is a ConfChangeV2): must not campaign; symbolic term/vote/leader/timers/flags",
@@ -698,6 +716,15 @@ harnesses! {
     { @nostub quorum_vote_5_5, "C11", thorough, unwind = 8,
       "JointConfig::vote_result for halves of 5 and 5 voters: symbolic ids, symbolic yes/no/missing per id; won/lost/pending oracle",
       |s| c11::vote_result(s, 5, 5) }
+    { @nostub quorum_ci_8_0_cap9, "C11", quick, unwind = 11,
+      "committed_index for a single set of 8 voters (the heap-allocated path for more than 7 voters; built with the 9-slot container shim): symbolic ids and acked indexes, counting oracle (plain quorum commit)",
+      |s| c11::committed_index(s, 8, 0, false) }
+    { @nostub quorum_ci_9_2_cap9, "C11", thorough, unwind = 12,
+      "committed_index for a joint configuration of 9 and 2 voters (9-slot shim)",
+      |s| c11::committed_index(s, 9, 2, false) }
+    { @nostub quorum_vote_8_0_cap9, "C11", thorough, unwind = 11,
+      "vote_result for 8 voters (9-slot shim)",
+      |s| c11::vote_result(s, 8, 0) }
     { @nostub quorum_tracker_simple, "C11", quick, unwind = 8,
       "ProgressTracker::{maximal_committed_index (real), tally_votes, vote_result, quorum_recently_active} on voters {1,2,3} + untracked-voter 4: symbolic matched / votes / activity",
       |s| c11::tracker(s, &[1, 2, 3], &[]) }
@@ -996,6 +1023,9 @@ harnesses! {
     { apply_follower_enter_joint, "C09,C12", quick, unwind = 8,
       "follower applies an explicit enter-joint change (add 4, remove 3): joint configuration per reference semantics, promotable kept",
       |s| c12::apply_step(s, &F30, &[(0, 4), (1, 3)], 2, None) }
+    { apply_follower_outgoing_only, "C09,C12,C10", quick, unwind = 8,
+      "follower applies an explicit enter-joint change that removes itself from the incoming voters: still a voter through the outgoing half, hence still promotable",
+      |s| c12::apply_step(s, &F30, &[(1, 1)], 2, None) }
     { apply_follower_leave_nonjoint, "C09,C12", quick, unwind = 8,
       "follower applies a leave-joint change while not joint: rejected, nothing changes",
       |s| c12::apply_step(s, &F30, &[], 0, None) }
